@@ -514,6 +514,10 @@ func allocSite(e *ev.Env, c *ev.Case, mk func() *fiber.App, input []byte, limit,
 	return best
 }
 
+// sigFlashRaw: the flash cookie on the wire is the raw MessagePack encoding (known finding); every
+// ill-formedness caused by its bytes maps to this one signature.
+const sigFlashRaw = "wellformed|flash-cookie-raw-msgpack-bytes"
+
 // judgeStream applies the well-formedness oracle to everything a connection wrote back.
 func judgeStream(e *ev.Env, c *ev.Case, cfg string, input, out []byte) ([]*strict.Response, bool) {
 	rs, perr := parseWithHead(out)
@@ -521,8 +525,9 @@ func judgeStream(e *ev.Env, c *ev.Case, cfg string, input, out []byte) ([]*stric
 		site := headerAt(out, perr.Off)
 		if perr.Class == "bytes-after-close" && len(rs) > 0 && rs[len(rs)-1].Get("X-Is-Head") == "1" {
 			// the answer to a HEAD request is followed by body bytes
-			e.Violation(c, "wellformed|head-response-has-body|status-"+itoa(rs[len(rs)-1].Status), "the response to a HEAD request carries a body: "+perr.Error(),
-				map[string]any{"config": cfg, "input_hex": hexOf(input), "input": show(input), "output": show(out)})
+			e.Stat("head_response_has_body_status_"+itoa(rs[len(rs)-1].Status), 1)
+			e.Violation(c, "wellformed|head-response-has-body|fasthttp-error-path", "the response to a HEAD request carries a body: "+perr.Error(),
+				map[string]any{"config": cfg, "status": rs[len(rs)-1].Status, "input_hex": hexOf(input), "input": show(input), "output": show(out)})
 			return rs, false
 		}
 		off0 := 0
@@ -539,10 +544,13 @@ func judgeStream(e *ev.Env, c *ev.Case, cfg string, input, out []byte) ([]*stric
 		if cls := flashCookieBytes(out[scan:]); cls != "" {
 			// the flash cookie is raw MessagePack: name the worst byte class it carries rather
 			// than the first one met (old-input entries come in map order)
-			sig = "wellformed|flash-cookie-raw-bytes|" + cls
+			// one signature for the known root cause; the class is detail
+			sig = sigFlashRaw
+			site = "flash-cookie:" + cls
+			e.Stat("flash_cookie_raw_"+cls, 1)
 		}
 		e.Violation(c, sig, "response stream rejected by the strict parser: "+perr.Error(),
-			map[string]any{"config": cfg, "input_hex": hexOf(input), "input": show(input), "output": show(out), "parsed_before": len(rs)})
+			map[string]any{"config": cfg, "class": site, "input_hex": hexOf(input), "input": show(input), "output": show(out), "parsed_before": len(rs)})
 		// independent of where the strict parser stopped: a line-splitting client sees these
 		// header lines in the failing response
 		off := 0
